@@ -6,6 +6,7 @@
 from __future__ import annotations
 
 import importlib.metadata
+from collections.abc import Sequence
 from contextvars import ContextVar
 from http import HTTPStatus
 from io import BytesIO, IOBase
@@ -16,6 +17,7 @@ import pyarrow as pa
 
 from vgi_rpc.rpc import _EMPTY_SCHEMA, _write_error_batch
 from vgi_rpc.rpc._common import _current_request_batch
+from vgi_rpc.rpc._wire import _write_log_metadata_batches
 from vgi_rpc.utils import new_ipc_stream
 
 from .._common import _ARROW_CONTENT_TYPE, RPC_ERROR_HEADER, _RpcHttpError
@@ -98,7 +100,10 @@ def _check_content_type(req: falcon.Request) -> None:
 
 
 def _error_response_stream(
-    exc: BaseException, schema: pa.Schema = _EMPTY_SCHEMA, server_id: str | None = None
+    exc: BaseException,
+    schema: pa.Schema = _EMPTY_SCHEMA,
+    server_id: str | None = None,
+    logs: Sequence[pa.KeyValueMetadata] = (),
 ) -> BytesIO:
     """Serialize an exception as a complete Arrow IPC error stream.
 
@@ -106,6 +111,8 @@ def _error_response_stream(
         exc: The exception to serialize.
         schema: Arrow schema for the error stream (default empty).
         server_id: Optional server identifier injected into error metadata.
+        logs: Encoded metadata of client log messages emitted before the
+            failure; written as log batches ahead of the error batch.
 
     Returns:
         A ``BytesIO`` positioned at the start, containing the IPC stream.
@@ -113,6 +120,7 @@ def _error_response_stream(
     """
     buf = BytesIO()
     with new_ipc_stream(buf, schema) as writer:
+        _write_log_metadata_batches(writer, schema, logs)
         _write_error_batch(writer, schema, exc, server_id=server_id)
     buf.seek(0)
     return buf
@@ -187,8 +195,9 @@ def _set_error_response(
     status_code: HTTPStatus = HTTPStatus.BAD_REQUEST,
     schema: pa.Schema = _EMPTY_SCHEMA,
     server_id: str | None = None,
+    logs: Sequence[pa.KeyValueMetadata] = (),
 ) -> None:
     """Set a Falcon response to an Arrow IPC error stream."""
     resp.content_type = _ARROW_CONTENT_TYPE
-    resp.stream = _error_response_stream(exc, schema, server_id=server_id)
+    resp.stream = _error_response_stream(exc, schema, server_id=server_id, logs=logs)
     _set_http_status(resp, status_code)
